@@ -121,6 +121,10 @@ def generate(run_seed, index, tier):
         two, use_rand, use_reject, fault_rate = False, False, False, 0.0
         qweights = [('form', 1)]
         word = 'aq' * (60 if thorough else 30)
+    elif cfg_r.random() < 0.04:
+        # append burst: a query, then a long uninterrupted run of appends (longer than any plausible pending-queue bound), then queries
+        two, use_rand, use_reject, use_clone = False, False, False, False
+        word = 'aq' + 'a' * cfg_r.choice([33, 40, 50, 57]) + 'q'
     else:
         L = srng.weighted(cfg_r, [('s', 6), ('m', 3), ('l', 1)])
         L = {'s': cfg_r.randint(2, 6), 'm': cfg_r.randint(7, 15), 'l': cfg_r.randint(16, 60 if thorough else 30)}[L]
